@@ -20,9 +20,21 @@ def pick_requests(prep, rng, n):
     src = os.path.basename(prep.b.src)
     fnames = [f['name'] for f in side['funcs'] if f['kind'] != 'main'] + ['gen_id', 'mix', 'apply', 'area', 'main']
     out = []
+    insns = prep.insn_addrs()
     for _ in range(n):
         k = rng.random()
-        if k < 0.35 and ex:
+        if k < 0.12:
+            # two breakpoints on neighbouring instructions (closer than one machine word)
+            import bisect
+            for _try in range(20):
+                a = rng.choice(insns)
+                i = bisect.bisect_right(insns, a)
+                if a in bp and i < len(insns) and insns[i] - a < 8 and insns[i] in bp:
+                    pair = [('addr', a), ('addr', insns[i])]
+                    rng.shuffle(pair)
+                    out.extend(pair)
+                    break
+        elif k < 0.35 and ex:
             out.append(('addr', rng.choice(ex)))
         elif k < 0.45 and hot:
             out.append(('addr', rng.choice(hot)))
@@ -230,7 +242,7 @@ def run_case(spec):
                     pattern.append('A')
                 elif e < 0.55:
                     # a breakpoint right at / next to the current pc
-                    cand = [a for a in prep.stmt_addrs() if 0 <= a - pc < 40]
+                    cand = [a for a in prep.insn_addrs() if 0 < a - pc < 12] or [a for a in prep.stmt_addrs() if 0 <= a - pc < 40]
                     if cand:
                         M.add(S, 'addr', rng.choice(cand), v)
                         pattern.append('Ahere')
